@@ -299,8 +299,8 @@ func TestF11_SyncAfterRecovery(t *testing.T) {
 	db := mustOpen(t, fsys, o)
 	_ = db.Put([]byte("a"), []byte("0123456789"))
 	_ = db.Put([]byte("b"), []byte("0123456789")) // rolls over: "b" sits in the second segment, unsynced
-	fsys.Kill()                                    // the process dies; the page cache survives
-	db2 := mustOpen(t, fsys, o)                    // recovery
+	fsys.Kill()                                   // the process dies; the page cache survives
+	db2 := mustOpen(t, fsys, o)                   // recovery
 	if got := show(contents(t, db2)); got != "a=01234567..(10) b=01234567..(10) " {
 		t.Fatalf("after recovery: %q", got)
 	}
